@@ -59,6 +59,9 @@ def md_pool(draw):
         [{"tol": 0.1234567890123}, {"tol": 0.1234567890124}, {"tol": 0.1234567890123}],
         [{"o": {"a": 1, "b": [1, 2, 3]}}, {"o": {"a": 1, "b": [1, 2, 4]}}, {"o": {"a": 1, "b": [1, 2, 3]}}],
         [{"w": {"__array__": [n, seed, None, 0]}}, {"w": {"__array__": [n, seed, pos, delta]}}, {"w": {"__array__": [n, seed, None, 0]}}, {}],
+        [{"__ordered__": [["quadrature_degree", 2], ["max_terms", 4]]}, {"__ordered__": [["max_terms", 2], ["quadrature_degree", 4]]},
+         {"__ordered__": [["max_terms", 4], ["quadrature_degree", 2]]}],
+        [{"__ordered__": [["scheme", "a"], ["rule", "b"]]}, {"__ordered__": [["rule", "a"], ["scheme", "b"]]}, {}],
         [{"w": {"__array__": [n, seed, None, 0]}, "quadrature_degree": 2}, {"w": {"__array__": [n, seed, pos, delta]}, "quadrature_degree": 2}],
     ]
     return draw(st.sampled_from(pools))
